@@ -116,4 +116,36 @@ theorem ga_cv_output_terms_eq (H : Conv2dHelper)
     ((ga_toCHelper H).wb - (ga_toCHelper H).S.kw + 1) (cyPos (ga_toCHelper H))]
   rfl
 
+/-- **`Conv2dHelper::get_total_batch_size`, generated = `CHelper.totalBatch`** (number of input groups: batch blocks × tile rows × tile columns)
+    for a helper whose blocks contain a non-empty kernel that fits the image, non-zero batch block, dimensions ≤ 2^15 -/
+theorem ga_cv_total_batch_eq (H : Conv2dHelper)
+    (hkh1 : 1 ≤ H.kernel_height) (hkh2 : H.kernel_height ≤ H.image_height_block) (hkh3 : H.kernel_height ≤ H.image_height)
+    (hkw1 : 1 ≤ H.kernel_width) (hkw2 : H.kernel_width ≤ H.image_width_block) (hkw3 : H.kernel_width ≤ H.image_width)
+    (hbb : 1 ≤ H.batch_block) (hsz : H.batch_size ≤ 2^15 ∧ H.image_height ≤ 2^15 ∧ H.image_width ≤ 2^15)
+    (hblk : H.batch_block ≤ 2^15 ∧ H.image_height_block ≤ 2^15 ∧ H.image_width_block ≤ 2^15) :
+    cv_total_batch H = .ok (ga_toCHelper H).totalBatch := by
+  obtain ⟨s1, s2, s3⟩ := hsz
+  obtain ⟨k1, k2, k3⟩ := hblk
+  have d1 : 1 ≤ H.image_height_block - (H.kernel_height - 1) := by omega
+  have d2 : 1 ≤ H.image_width_block - (H.kernel_width - 1) := by omega
+  have b1 : ceilDiv H.batch_size H.batch_block ≤ 2^15 := Nat.le_trans (c20_ceilDiv_le hbb) s1
+  have b2 : ceilDiv (H.image_height - (H.kernel_height - 1)) (H.image_height_block - (H.kernel_height - 1)) ≤ 2^15 :=
+    Nat.le_trans (c20_ceilDiv_le d1) (by omega)
+  have b3 : ceilDiv (H.image_width - (H.kernel_width - 1)) (H.image_width_block - (H.kernel_width - 1)) ≤ 2^15 :=
+    Nat.le_trans (c20_ceilDiv_le d2) (by omega)
+  have p1 := Nat.mul_le_mul b1 b2
+  have p2 := Nat.mul_le_mul p1 b3
+  simp only [cv_total_batch, ga_ckSub hkh1, ga_ckSub hkw1, ga_ckSub (show H.kernel_height - 1 ≤ H.image_height by omega),
+    ga_ckSub (show H.kernel_height - 1 ≤ H.image_height_block by omega),
+    ga_cv_ceil_div d1 (show H.image_height - (H.kernel_height - 1) + (H.image_height_block - (H.kernel_height - 1)) < 2^64 by omega),
+    ga_ckSub (show H.kernel_width - 1 ≤ H.image_width by omega), ga_ckSub (show H.kernel_width - 1 ≤ H.image_width_block by omega),
+    ga_cv_ceil_div d2 (show H.image_width - (H.kernel_width - 1) + (H.image_width_block - (H.kernel_width - 1)) < 2^64 by omega),
+    ga_cv_ceil_div hbb (show H.batch_size + H.batch_block < 2^64 by omega), ga_ok_bind,
+    ga_ckMul (show ceilDiv H.batch_size H.batch_block
+      * ceilDiv (H.image_height - (H.kernel_height - 1)) (H.image_height_block - (H.kernel_height - 1)) < 2^64 by omega),
+    ga_ckMul (show ceilDiv H.batch_size H.batch_block
+      * ceilDiv (H.image_height - (H.kernel_height - 1)) (H.image_height_block - (H.kernel_height - 1))
+      * ceilDiv (H.image_width - (H.kernel_width - 1)) (H.image_width_block - (H.kernel_width - 1)) < 2^64 by omega)]
+  rfl
+
 end HC
